@@ -11,7 +11,7 @@ class Prop(C02):
     props_file = 'Props/C15.v'
     required_theorems = ['no_empty_destination', 'stats_eq_recount', 'no_counter_underflow', 'table_totals_eq_recount',
                          'limit_counter_refuted', 'limit_respected_outside_known', 'limit_rejection_installs_nothing',
-                         'remove_finds_stats', 'stats_eq_adjin_view']
+                         'remove_finds_stats', 'stats_eq_adjin_view', 'known_class_narrowed']
     extra_targets = ['Model/Rib.vo']
     correspondence_name = 'Model/Rib.v step (route_stats, limit counters, Table::state) vs rustybgp_table::Table (harness/hx-rib, debug and release)'
     trusted_base = C02.trusted_base + [
